@@ -25,7 +25,6 @@ type Writer struct {
 	offset64 uint32
 	finished bool
 	index    *MemoryIndex
-	added    map[plumbing.Hash]struct{}
 }
 
 // Index returns a previously created MemoryIndex or creates a new one if
@@ -51,14 +50,9 @@ func (w *Writer) Add(h plumbing.Hash, pos uint64, crc uint32) {
 	w.m.Lock()
 	defer w.m.Unlock()
 
-	if w.added == nil {
-		w.added = make(map[plumbing.Hash]struct{})
-	}
-
-	if _, ok := w.added[h]; !ok {
-		w.added[h] = struct{}{}
-		w.objects = append(w.objects, Entry{h, crc, pos})
-	}
+	// A pack may store the same object more than once; like git index-pack,
+	// keep one index row per pack entry.
+	w.objects = append(w.objects, Entry{h, crc, pos})
 }
 
 // Finished returns true if the writer has finished writing.
@@ -103,7 +97,9 @@ func (w *Writer) createIndex() (*MemoryIndex, error) {
 	idx := NewMemoryIndex(w.checksum.Size())
 	w.index = idx
 
-	sort.Sort(w.objects)
+	// Stable, so that repeated names keep their pack order (as git's
+	// merge-sort based QSORT does).
+	sort.Stable(w.objects)
 
 	// unmap all fans by default
 	for i := range idx.FanoutMapping {
